@@ -5,7 +5,8 @@ PROP = {'modules': ['AmVerif.Props.C05'],
               'classes': ['stale-after-hot-reload', 'event-before-hot-reload-missed', 'stale-asset-first-loaded-during-reload', 'stale-asset-newly-depending-on-changed-asset', 'sync-timeout']},
              {'name': 'iso', 'tag': 'iso-parking_lot', 'features': 'parking_lot', 'first': 5, 'quick': 1, 'thorough': 30,
               'classes': ['returned-before-update', 'stress-hung', 'event-never-taken']},
-             {'name': 'conc', 'tag': 'conc-lookups', 'quick': 4, 'thorough': 40, 'classes': ['presence-flipped', 'racers-diverge', 'harness-panic']}],
+             {'name': 'conc', 'tag': 'conc-lookups', 'quick': 4, 'thorough': 40, 'classes': ['presence-flipped', 'racers-diverge', 'harness-panic']},
+             {'name': 'watch', 'tag': 'watch-events', 'quick': 60, 'thorough': 600}],
  'rule': 'hot-reloading histories over the in-memory source, 8 families by case index: single-edit attribution probes, non-reloadable entries under load/remove/take/clear/get_or_insert, precision with watchers / unnotified edits / noise, event sent right before hot_reload (no barrier), convergence over random script DAGs (value edits, rewiring, break / repair, file and directory creation and deletion, single / batched / duplicated events) in local and static mode; after every quiescence barrier the value and reload id of every cached entry is dumped and every cached reloadable asset is compared with a fresh load_owned; non-trivial = at least one cache op; distinct = distinct transcripts',
  'assumptions': ['loaders are deterministic functions of what they read', 'notified = EventSender::send returned before hot_reload was called'],
  'trusted': COMMON_TRUSTED + MODEL_TRUSTED + ['modelled, not verified: HashMap / HashSet iteration order (any order), crossbeam channels as FIFO queues, the reloader thread as the function `hotReload` / `handleEvents` (its scheduling is C08)']}
